@@ -1,7 +1,7 @@
 (** C02 — Dense and readable generators emit code that means the same tree.
     Only statements, closed by [exact], with their assumptions printed. *)
 From DL Require Import Lib.Bytes Model.Lexer Model.DenseGen Model.Precedence Model.C02Spec Proof.DenseGenFacts
-  Proof.PrecedenceFacts Proof.C02FrozenTables Proof.C02Examples.
+  Proof.PrecedenceFacts Proof.C02FrozenTables Proof.C02Examples Proof.C02StatementFacts.
 Open Scope N_scope.
 
 Theorem C02_no_fusion_stream : forall T span items,
@@ -61,3 +61,28 @@ Theorem C02_frozen_prec_ok : prec_ok Proof.C02FrozenTables.ptbl = true.
 Proof. exact frozen_prec_ok. Qed.
 Print Assumptions C02_frozen_prec_ok.
 Check C02_frozen_prec_ok : prec_ok Proof.C02FrozenTables.ptbl = true.
+
+Theorem C02_merge_char_glues : forall span g,
+  exists pre, out (merge_char span g [40]) = pre ++ last_push g ++ [40].
+Proof. exact merge_char_glues. Qed.
+Print Assumptions C02_merge_char_glues.
+Check C02_merge_char_glues : forall span g,
+  exists pre, out (merge_char span g [40]) = pre ++ last_push g ++ [40].
+
+Theorem C02_semicolon_rule_partial : forall isp P e,
+  right_spine_plain P e = true ->
+  ends_prefix isp e = closes_prefix isp (tokens_of_expr P e).
+Proof. exact semicolon_rule_partial. Qed.
+Print Assumptions C02_semicolon_rule_partial.
+Check C02_semicolon_rule_partial : forall isp P e,
+  right_spine_plain P e = true ->
+  ends_prefix isp e = closes_prefix isp (tokens_of_expr P e).
+
+Theorem C02_semicolon_rule_refuted :
+  exists e, ends_prefix (fun a => a <? 50) e = false
+            /\ closes_prefix (fun a => a <? 50) (tokens_of_expr Proof.C02FrozenTables.ptbl e) = true.
+Proof. exact semicolon_rule_refuted. Qed.
+Print Assumptions C02_semicolon_rule_refuted.
+Check C02_semicolon_rule_refuted :
+  exists e, ends_prefix (fun a => a <? 50) e = false
+            /\ closes_prefix (fun a => a <? 50) (tokens_of_expr Proof.C02FrozenTables.ptbl e) = true.
